@@ -509,7 +509,7 @@ class SR(Sym):
         st = "p" if self.sg == "p" else None
         if self.sg not in ("p", "nn"):
             ST.oblige("log-nonneg", self.n >= 0, "log argument")
-        return SL(self.n, self.d, None, st)
+        return SL.from_frac(self.n, self.d, None, st)
 
     # -- comparisons -------------------------------------------------------------------
     def _cmp(self, o, op):
@@ -575,30 +575,90 @@ class SR(Sym):
 # ----------------------------------------------------------------------------------------
 # log-space scalar
 # ----------------------------------------------------------------------------------------
-class SL(Sym):
-    """log(V), V = (cn/cd)*E(a) >= 0 ; cd > 0 ; st in {'z' (V=0, i.e. -inf), 'p' (V>0), None (V>=0), 'bad'}."""
-    __slots__ = ("cn", "cd", "a", "st", "why")
+def _fmul(f, g, sign=1):
+    """merge two factor dicts  id -> (term, power)"""
+    if not g:
+        return f
+    out = dict(f)
+    for k, (t, p) in g.items():
+        if k in out:
+            q = out[k][1] + sign * p
+            if q == 0:
+                del out[k]
+            else:
+                out[k] = (t, q)
+        else:
+            out[k] = (t, sign * p)
+    return out
 
-    def __init__(self, cn, cd=_ONE, a=None, st=None, why=None):
-        self.cn = cn
-        self.cd = cd
+
+def _root_of(atom, q):
+    """fresh w >= 0 with w**q == atom (atom >= 0)"""
+    key = ("aroot", atom.get_id(), q)
+    hit = ST.rootcache.get(key)
+    if hit is None:
+        w = ST.fresh("root")
+        ST.assume(w >= 0)
+        lhs = w
+        for _ in range(q - 1):
+            lhs = t_mul(lhs, w)
+        ST.assume(lhs == atom)
+        ST.assume(z3.Implies(atom > 0, w > 0))
+        ST.roots[str(w)] = (1, q, atom)
+        ST.rootcache[key] = (w,)
+        hit = ST.rootcache[key]
+    return hit[0]
+
+
+def _tpow(t, n):
+    out = t
+    for _ in range(n - 1):
+        out = t_mul(out, t)
+    return out
+
+
+def _materialise(c, f):
+    """(num term, den term) of  c * prod atom**pow ; fractional powers go through root variables"""
+    num, den = R(c.numerator), R(c.denominator)
+    for _, (t, p) in sorted(f.items()):
+        p = Fraction(p)
+        if p.denominator != 1:
+            t = _root_of(t, p.denominator)
+        n = abs(p.numerator)
+        if p > 0:
+            num = t_mul(num, _tpow(t, n))
+        else:
+            den = t_mul(den, _tpow(t, n))
+    return num, den
+
+
+class SL(Sym):
+    """log(V),  V = c * prod_i atom_i**p_i * E(a) >= 0.
+    c: Fraction >= 0; atoms: z3 terms known to be >= 0 (variables, sums of monomials, exp-atoms), p_i rational (negative =
+    denominator).  Keeping the monomial factored lets a message divided by itself cancel syntactically.
+    st in {'z' (V=0, i.e. -inf), 'p' (V>0), None (V>=0 unknown), 'bad' (+inf / nan: poison, error only if used)}."""
+    __slots__ = ("c", "f", "a", "st", "why")
+
+    def __init__(self, c, f, a=None, st=None, why=None):
+        self.c = c
+        self.f = f
         self.a = a
-        if st is None and is_num(cn):
-            st = "z" if numval(cn) == 0 else "p"
+        if st is None and not f:
+            st = "z" if c == 0 else "p"
         self.st = st
         self.why = why
 
     @staticmethod
     def zero():
-        return SL(_ZERO, _ONE, None, "z")
+        return SL(Fraction(0), {}, None, "z")
 
     @staticmethod
     def one():
-        return SL(_ONE, _ONE, None, "p")
+        return SL(Fraction(1), {}, None, "p")
 
     @staticmethod
     def bad(why):
-        return SL(_ONE, _ONE, None, "bad", why)
+        return SL(Fraction(1), {}, None, "bad", why)
 
     @staticmethod
     def var(name, positive=True):
@@ -606,9 +666,26 @@ class SL(Sym):
         v = z3.Real(name)
         if positive:
             ST.assume(v > 0)
-            return SL(v, _ONE, None, "p")
+            return SL(Fraction(1), {v.get_id(): (v, 1)}, None, "p")
         ST.assume(v >= 0)
-        return SL(v, _ONE, None, None)
+        return SL(Fraction(1), {v.get_id(): (v, 1)}, None, None)
+
+    @staticmethod
+    def from_frac(n, d, a=None, st=None):
+        """log(n/d * E(a)) for z3 terms n >= 0, d > 0"""
+        c = Fraction(1)
+        f = {}
+        if is_num(n):
+            c *= numval(n)
+        else:
+            f = _fmul(f, {n.get_id(): (n, 1)})
+        if is_num(d):
+            c /= numval(d)
+        else:
+            f = _fmul(f, {d.get_id(): (d, 1)}, -1)
+        if c == 0:
+            return SL.zero()
+        return SL(c, f, a, st)
 
     @staticmethod
     def lift(x):
@@ -618,7 +695,7 @@ class SL(Sym):
         if isinstance(x, SR):
             if x.is_const() and x.constval() == 0:
                 return SL.one()
-            return SL(_ONE, _ONE, x.term(), "p")
+            return SL(Fraction(1), {}, x.term(), "p")
         if isinstance(x, _PYNUM):
             xf = float(x)
             if xf == -math.inf:
@@ -627,15 +704,20 @@ class SL(Sym):
                 return SL.one()
             if math.isinf(xf) or math.isnan(xf):
                 return SL.bad("float %r in log space" % xf)
-            return SL(_ONE, _ONE, R(x if isinstance(x, (int, Fraction)) else xf), "p")
+            return SL(Fraction(1), {}, R(x if isinstance(x, (int, Fraction)) else xf), "p")
         raise SymError("cannot lift %r to SL" % (x,))
 
-    # V as an SR-like fraction (E atom materialised)
+    # V as a fraction of z3 terms (E atom materialised)
     def vfrac(self):
         self._use()
-        if self.a is None:
-            return self.cn, self.cd
-        return t_mul(self.cn, E_atom(self.a)), self.cd
+        n, d = _materialise(self.c, self.f)
+        if self.a is not None:
+            n = t_mul(n, E_atom(self.a))
+        return n, d
+
+    @property
+    def cn(self):
+        return _materialise(self.c, self.f)[0]
 
     def _use(self):
         if self.st == "bad":
@@ -648,7 +730,7 @@ class SL(Sym):
             return True
         if self.st == "p":
             return False
-        return _mk_sb(self.cn == 0)
+        return _mk_sb(_materialise(self.c, self.f)[0] == 0)
 
     # -- log-space arithmetic ------------------------------------------------------------
     def __add__(self, o):
@@ -663,7 +745,7 @@ class SL(Sym):
             return SL.zero()
         a = self.a if o.a is None else (o.a if self.a is None else self.a + o.a)
         st = "p" if (self.st == "p" and o.st == "p") else None
-        return SL(t_mul(self.cn, o.cn), t_mul(self.cd, o.cd), a, st)
+        return SL(self.c * o.c, _fmul(self.f, o.f), a, st)
 
     __radd__ = __add__
 
@@ -673,9 +755,8 @@ class SL(Sym):
         if self.st == "z":
             return SL.bad("-(-inf) = +inf")
         if self.st != "p":
-            # 1/V with V possibly zero: obligation V != 0
-            ST.oblige("neg-log-finite", self.cn != 0, "negating a log value that may be -inf")
-        return SL(self.cd, self.cn, None if self.a is None else -self.a, "p" if self.st == "p" else None)
+            ST.oblige("neg-log-finite", _materialise(self.c, self.f)[0] != 0, "negating a log value that may be -inf")
+        return SL(1 / self.c, _fmul({}, self.f, -1), None if self.a is None else -self.a, "p" if self.st == "p" else None)
 
     def __sub__(self, o):
         if not isinstance(o, (SL, SR) + _PYNUM):
@@ -703,6 +784,10 @@ class SL(Sym):
         if self.st == "bad":
             return self
         kf = Fraction(k) if not isinstance(k, Fraction) else k
+        if kf.denominator > 64:
+            kf = kf.limit_denominator(64)      # float spellings of 1/3 etc.
+            if abs(float(kf) - float(k)) > 1e-12:
+                raise SymError("irrational-looking multiple %r of a log-space value" % (k,))
         if kf == 1:
             return self
         if kf == 0:
@@ -714,32 +799,17 @@ class SL(Sym):
         if self.st == "z":
             return self
         a = None if self.a is None else self.a * R(kf)
+        c, f = self.c, self.f
         if kf.denominator == 1:
-            cn, cd = self.cn, self.cd
-            for _ in range(kf.numerator - 1):
-                cn, cd = t_mul(cn, self.cn), t_mul(cd, self.cd)
-            return SL(cn, cd, a, self.st)
-        # fractional power of the coefficient: w^q = c^p, w >= 0
-        if t_isone(self.cn) and t_isone(self.cd):
-            return SL(_ONE, _ONE, a, self.st)
-        p, q = kf.numerator, kf.denominator
-        key = ("root", p, q, self.cn.get_id(), self.cd.get_id())
-        hit = ST.rootcache.get(key)
-        if hit is None:
-            w = ST.fresh("root")
-            ST.assume(w >= 0)
-            lhs, rn, rd = w, self.cn, self.cd
-            for _ in range(q - 1):
-                lhs = t_mul(lhs, w)
-            for _ in range(p - 1):
-                rn, rd = t_mul(rn, self.cn), t_mul(rd, self.cd)
-            ST.assume(t_mul(lhs, rd) == rn)
-            if self.st == "p":
-                ST.assume(w > 0)
-            ST.roots[str(w)] = (p, q, self.cn / self.cd if not t_isone(self.cd) else self.cn)
-            ST.rootcache[key] = (w,)
-            hit = ST.rootcache[key]
-        return SL(hit[0], _ONE, a, self.st)
+            c2 = c ** kf.numerator
+        elif c == 1:
+            c2 = c
+        else:
+            t = R(c)
+            f = _fmul(f, {t.get_id(): (t, 1)})
+            c2 = Fraction(1)
+        f2 = {k_: (t, p * kf) for k_, (t, p) in f.items()}
+        return SL(c2, f2, a, self.st)
 
     __rmul__ = __mul__
 
@@ -765,24 +835,20 @@ class SL(Sym):
             of = float(o)
             if of == -math.inf:
                 z = self.is_zero()
-                if op == "eq":
-                    return z
-                if op == "ne":
-                    return (not z) if isinstance(z, bool) else ~z
-                if op in ("gt",):
-                    return (not z) if isinstance(z, bool) else ~z
-                if op == "ge":
-                    return True
-                if op == "lt":
-                    return False
-                if op == "le":
-                    return z
+                nz = (not z) if isinstance(z, bool) else ~z
+                return {"eq": z, "ne": nz, "gt": nz, "ge": True, "lt": False, "le": z}[op]
             if of == math.inf:
                 self._use()
                 return {"lt": True, "le": True, "gt": False, "ge": False, "eq": False, "ne": True}[op]
         if not isinstance(o, (SL, SR) + _PYNUM):
             return NotImplemented
         o = SL.lift(o)
+        if self.st == "z" and o.st == "z":
+            return {"lt": False, "le": True, "gt": False, "ge": True, "eq": True, "ne": False}[op]
+        if self.st == "z" and o.st == "p":
+            return {"lt": True, "le": True, "gt": False, "ge": False, "eq": False, "ne": True}[op]
+        if self.st == "p" and o.st == "z":
+            return {"lt": False, "le": False, "gt": True, "ge": True, "eq": False, "ne": True}[op]
         an, ad = self.vfrac()
         bn, bd = o.vfrac()
         l, r = t_mul(an, bd), t_mul(bn, ad)
@@ -816,15 +882,16 @@ class SL(Sym):
             return "SL(-inf)"
         if self.st == "bad":
             return "SL(bad:%s)" % self.why
-        s = "log(%s/%s)" % (self.cn, self.cd) if not t_isone(self.cd) else "log(%s)" % self.cn
+        n, d = _materialise(self.c, self.f)
+        s = "log(%s/%s)" % (n, d) if not t_isone(d) else "log(%s)" % n
         if self.a is not None:
             s += "+(%s)" % self.a
-        return "SL(%s)" % (s if len(s) < 70 else s[:67] + "...")
+        s = " ".join(s.split())
+        return "SL(%s)" % (s if len(s) < 90 else s[:87] + "...")
 
 
 def sl_sum(items):
-    """logsumexp of an iterable of SL: log(sum V_i)."""
-    items = [x for x in items]
+    """logsumexp of an iterable of SL: log(sum V_i), with the common monomial factored out."""
     nz = []
     for x in items:
         if x.st == "bad":
@@ -835,30 +902,48 @@ def sl_sum(items):
         return SL.zero()
     if len(nz) == 1:
         return nz[0]
-    # common exp-argument can stay factored out
     a0 = nz[0].a
     same_a = all((x.a is None and a0 is None) or (x.a is not None and a0 is not None and x.a.eq(a0)) for x in nz)
     if same_a:
-        parts = [(x.cn, x.cd) for x in nz]
+        monos = [(x.c, x.f) for x in nz]
         a = a0
     else:
-        parts = [x.vfrac() for x in nz]
+        monos = []
+        for x in nz:
+            f = x.f
+            if x.a is not None:
+                e = E_atom(x.a)
+                f = _fmul(f, {e.get_id(): (e, 1)})
+            monos.append((x.c, f))
         a = None
-    d0 = parts[0][1]
-    if all(d.eq(d0) for _, d in parts):
-        n = parts[0][0]
-        for pn, _ in parts[1:]:
-            n = t_add(n, pn)
-        d = d0
-    else:
-        n, d = parts[0]
-        for pn, pd in parts[1:]:
-            if d.eq(pd):
-                n = t_add(n, pn)
-            else:
-                n, d = t_add(t_mul(n, pd), t_mul(pn, d)), t_mul(d, pd)
+    # common factor: per atom the minimum power over all summands (0 where absent)
+    keys = set()
+    for _, f in monos:
+        keys.update(f.keys())
+    common = {}
+    for k in keys:
+        ps = [f[k][1] if k in f else 0 for _, f in monos]
+        m = min(ps)
+        if m != 0:
+            t = next(f[k][0] for _, f in monos if k in f)
+            common[k] = (t, m)
+    terms = []
+    for c, f in monos:
+        rest = _fmul(f, common, -1)
+        n, d = _materialise(c, rest)
+        if not t_isone(d):
+            # only a rational constant can remain in the denominator here
+            n = t_mul(n, R(1 / numval(d))) if is_num(d) else n / d
+        terms.append(n)
+    # deterministic order => identical sums are the identical atom
+    terms.sort(key=lambda t: t.get_id())
+    tot = terms[0]
+    for t in terms[1:]:
+        tot = t_add(tot, t)
     st = "p" if any(x.st == "p" for x in nz) else None
-    return SL(n, d, a, st)
+    if is_num(tot):
+        return SL(numval(tot), common, a, st)
+    return SL(Fraction(1), _fmul(common, {tot.get_id(): (tot, 1)}), a, st)
 
 
 def is_sym(x):
